@@ -11,7 +11,8 @@ LEVEL_NOTE = ("gorilla/mux matching, net/http request parsing and redirect follo
 TECHNIQUE = "machine-checked proof in Coq + model/code correspondence check"
 DESIGN_REF = "DESIGN.md §4 C14"
 RULE = ("hist: a random history (4-33 ops) of deliveries, raw HTTP requests (7 path templates, names escaped in 4 valid ways, "
-        "k-th/latest/never-issued ids, right and wrong methods, PATCH bodies, attachment numbers) and calls of every method of "
+        "k-th/latest/never-issued ids, right and wrong methods, PATCH bodies (seen true / false / not JSON / empty, each framed with Content-Length, chunked or sent as HTTP/1.0, "
+        "with and without unrelated headers — framing and such headers must not matter), attachment numbers) and calls of every method of "
         "pkg/rest/client, run on the memory and the file store, local/full naming, with and without a base path. "
         "distinct = distinct input line; non-trivial = the history has at least one delivery and one request or client call "
         "that is answered 200.")
